@@ -248,8 +248,9 @@ def program(idl, aliases, pkg, rng, calls):
         if mn == "@unknown":
             L.append("\t\tvar out json.RawMessage\n\t\terr := conn.Call(cctx, \"%s.NoSuchMethod\", nil, &out)\n\t\ts, v := r.take()\n\t\toutl(\"CALL\", %d, s, v, \"-\", cls(err))\n" % (iface, ci))
         elif mn == "@badparams":
-            L.append("\t\tvar out json.RawMessage\n\t\terr := conn.Call(cctx, \"%s.%s\", json.RawMessage(`%s`), &out)\n\t\ts, v := r.take()\n\t\toutl(\"CALL\", %d, s, v, \"-\", cls(err))\n"
-                     % (iface, c["target"], c["raw"], ci))
+            arg = "nil" if c["raw"] == "-" else "json.RawMessage(`%s`)" % c["raw"]
+            L.append("\t\tvar out json.RawMessage\n\t\terr := conn.Call(cctx, \"%s.%s\", %s, &out)\n\t\ts, v := r.take()\n\t\toutl(\"CALL\", %d, s, v, \"-\", cls(err))\n"
+                     % (iface, c["target"], arg, ci))
         else:
             m = methods[mn]
             args = "".join(", %s" % go_lit(ft, c["in"][n], False, "pkg", aliases) for n, ft in m[3][1])
